@@ -276,6 +276,7 @@ Section Confinement.
     intros c h d n flags mode r h' Hc Hd H. unfold sys_openat_creat_excl in H.
     assert (Hno : forall e, (Err e, h) = (r, h') -> conf h h' /\ (forall i, r = Ok i -> inE i)).
     { intros e He. inversion He; subst. split; [apply conf_refl; exact Hc | intros i Hi; discriminate]. }
+    destruct (negb (has flags O_EXCL)); [apply (Hno _ H)|].
     destruct (has flags O_DIRECTORY); [apply (Hno _ H)|].
     destruct (create_check c h d n) as [dv|e] eqn:Hck; [|apply (Hno _ H)].
     destruct (create_check_ok _ _ _ _ _ Hck) as [Hg _].
